@@ -593,6 +593,9 @@ def _work_ra(unit, rec):
       for salt, (a_amp, d_amp) in enumerate([(amp, amps[0]), (amp, -0.375), (0.0, amp), (amp, 0.0)]):
         a = mk(5 + salt, a_amp) if a_amp else mk(0, 1.0, zero=True)
         d = mk(9 + salt, d_amp) if d_amp else mk(0, 1.0, zero=True)
+        # an integer-typed leaf that is linear in time (a step counter carried in the leapfrog state): n-1, n, n+1
+        a['counter'] = np.arange(1, 65, dtype=np.int32 if salt % 2 else np.int64)
+        d['counter'] = np.ones(64, dtype=a['counter'].dtype)
         p = jax.tree_util.tree_map(lambda x, y: x - y, a, d)
         f = jax.tree_util.tree_map(lambda x, y: x + y, a, d)
         key = ('ra', rt, 'linear_in_time', a_amp, d_amp)
@@ -603,6 +606,8 @@ def _work_ra(unit, rec):
         rec.case(key, transitions=len(fl), outcome=b''.join(_np(x).tobytes() for x in fl), nontrivial=bool(a_amp))
         _same_tree(rec, out[1], f, 'robert_asselin:newest_level_bit_identical', key)
         scale = (abs(a_amp) + abs(d_amp)) * 1.2 * 3
+        rec.close(np.asarray(_np(out[0]['counter']), dtype=np.float64), np.arange(1, 65, dtype=np.float64), scale=64.0,
+                  site='robert_asselin:linear_in_time_unchanged', key=key, sig={'leaf': 'integer step counter'})
         for g, w in zip(fl, jax.tree_util.tree_leaves(a)):
           if not rec.close(_np(g), _np(w), scale=scale, site='robert_asselin:linear_in_time_unchanged', key=key):
             break
